@@ -1,0 +1,11 @@
+//go:build verif
+
+package parser
+
+// Contracts for the tgvc verifier (see /verif/DESIGN.md). Comment-only file.
+
+// ParseFile uses defer/recover (bailout), which is outside the verifier's
+// subset: its contract is assumed, not proved.
+//@ func (*Parser).ParseFile
+//@   mode assumed defer+recover
+//@   assigns *
